@@ -47,6 +47,24 @@ def lit(lex, dt=None, lang=None):
     return ("l", lex, dt, lang)
 
 
+# "abc" and "abc"^^xsd:string are one RDF term; writers spell it the second way while this is set (see explicit_string_dt)
+EXPLICIT_STRING_DT = [False]
+
+
+class explicit_string_dt(object):
+    """with gen.explicit_string_dt(flag): documents written inside spell plain strings with their datatype"""
+
+    def __init__(self, on=True):
+        self.on = on
+
+    def __enter__(self):
+        self.prev = EXPLICIT_STRING_DT[0]
+        EXPLICIT_STRING_DT[0] = bool(self.on)
+
+    def __exit__(self, *a):
+        EXPLICIT_STRING_DT[0] = self.prev
+
+
 def term_nt(t):
     if t[0] == "i":
         return "<%s>" % t[1]
@@ -55,8 +73,10 @@ def term_nt(t):
     _, lex, dt, lang = t
     if lang:
         return '"%s"@%s' % (lex, lang)
-    if dt is None or dt == XSD + "string":
+    if (dt is None or dt == XSD + "string") and not EXPLICIT_STRING_DT[0]:
         return '"%s"' % lex
+    if dt is None:
+        dt = XSD + "string"
     return '"%s"^^<%s>' % (lex, dt)
 
 
@@ -147,6 +167,8 @@ def _value(rng, kind, nodes, class_nodes=None):
             return lit("\u6771\u4eac\u90fd" * 25 + str(rng.randrange(5)), XSD + "string")
         if r < 0.15:     # strings with blanks and non-ASCII characters (readers, codecs and sinks must agree on them)
             return lit(rng.choice(["caf\u00e9 %d", "\u6771\u4eac %d", "na\u00efve v%d", "two words %d"]) % rng.randrange(10), XSD + "string")
+        if r < 0.20:     # text that mentions a prefixed name (the datatype is what follows the closing quote, nothing else)
+            return lit(rng.choice(["see rdf:type %d", "geo:lat %d", "Stadt: B%d", "an xsd:int %d"]) % rng.randrange(10), XSD + "string")
         return lit("v%d" % rng.randrange(40), XSD + "string")
     if kind == "int":
         return lit(str(rng.randrange(-15, 100)), XSD + "integer")      # negative values too
@@ -156,8 +178,8 @@ def _value(rng, kind, nodes, class_nodes=None):
         return lit("2020-01-0%d" % rng.randrange(1, 9), XSD + "date")
     if kind == "iri":   # an IRI that is not an instance of anything
         return iri(EX + "ext%d" % rng.randrange(6))
-    if kind == "cdt2":  # C09 only: lexical forms containing 'dt:' / 'geo:' (sheXer's N-Triples reader looks for these substrings
-        # in the whole token, so such literals get an odd kind - consistently; used where both sides share the reader)
+    if kind == "cdt2":  # lexical forms containing 'dt:' / 'geo:' under a custom datatype (sheXer's readers used to look for
+        # these substrings in the whole token; fixed in /repo 8d83462)
         return lit(rng.choice(["Stadt: Berlin", "geo: 4 5", "5", "plain"]), EX + "dt/km")
     if kind == "cdt":   # custom datatype; some lexical forms hold characters str.splitlines() would cut at
         return lit(rng.choice(["5", "7.5", "x\u2028y", "a\u0085b", "12 km"]), EX + "dt/km")
@@ -478,8 +500,10 @@ def to_turtle(triples, group=True, use_a=True, dialect="standard", prefixed_cust
         _, lex, dt, lang = t
         if lang:
             return '"%s"@%s' % (lex, lang)
-        if dt is None or dt == XSD + "string":
+        if (dt is None or dt == XSD + "string") and not EXPLICIT_STRING_DT[0]:
             return '"%s"' % lex
+        if dt is None:
+            dt = XSD + "string"
         ns, local = _split_iri(dt)
         if dialect == "iter" and ns != XSD and not prefixed_custom_datatypes:
             # the streaming reader resolves only xsd:/rdf:/dt:/geo: datatype prefixes; others are written in full
